@@ -132,8 +132,9 @@ static void run_limit_case(uint64_t seed, int64_t i, Stats& st, std::set<std::st
   // bystander rules with strings, offender placed among them
   GenSet g = gen_ruleset(rng, 2 + (int) rng.below(5), [](const Frag& f) { return *f.strings && !*f.import; }, "b");
   int pos = (int) rng.below(g.rules.size() + 1);
+  std::string pad; if (i % 3 == 0) { pad = "rule padding {\n  strings:\n"; for (int k = 0; k < 70; k++) pad += "    $p" + std::to_string(k) + " = \"pad_" + std::to_string(k) + "_x\"\n"; pad += "  condition:\n    any of them\n}\n"; }
   auto src_with = [&](bool offender) {
-    std::string s; size_t k = 0;
+    std::string s = pad; size_t k = 0;
     for (auto& r : g.rules) { if ((int) k == pos && offender) s += "rule offender { strings: $o = \"ab\" $p = \"bab\" condition: #o > 0 and #p >= 0 }\n"; GenSet one; one.rules.push_back(r); s += one.source(); k++; }
     if (pos == (int) g.rules.size() && offender) s += "rule offender { strings: $o = \"ab\" $p = \"bab\" condition: #o > 0 and #p >= 0 }\n";
     return s;
